@@ -232,7 +232,10 @@ class SO2(SMPose):
         :rtype: SE2 instance
 
         """
-        return SE2(tr.rt2tr(self.A, [0, 0]))
+        if len(self) == 1:
+            return SE2(tr.rt2tr(self.A, [0, 0]))
+        else:
+            return SE2([tr.rt2tr(x, [0, 0]) for x in self.A])
 
 
 # ============================== SE2 =====================================#
